@@ -103,6 +103,8 @@ func post(c *ev.Check, outs []*run.Outcome) {
 		{"probe.fresh_registration_accepted", 3, 30},
 		{"probe.second_registration_rejected", 30, 300},
 		{"second_restart_same", 80, 1500},
+		{"archive_file_equals_memory", 80, 1500},
+		{"rotation_visible_and_recovered", 5, 100},
 	} {
 		min := q.quick
 		if c.Tier == "thorough" {
@@ -406,6 +408,8 @@ func genSeq(h int, seed int64) *Script {
 		}
 		c.Debt++
 		g.seq("auth", "auth.conflict.debt", c.Signed(sc.GCA.Priv).Bytes(), 0)
+		g.seq("register", "register.same", regBytes(sc.GCA.Pub, sc.Temp.Priv), 0)
+		g.seq("register", "register.other", regBytes(sc.Alt.Pub, sc.Temp.Priv), 0)
 		g.seq("clock", "clock", nil, 3000)
 		g.seqReport("fresh")
 		g.seqReport("fresh")
@@ -437,7 +441,7 @@ func genSeq(h int, seed int64) *Script {
 		w    int
 	}
 	choices := []choice{{"report.fresh", 30}, {"report.replay", 5}, {"report.equiv", 8}, {"report.overcap", 5}, {"report.negative", 3}, {"report.banneddev", 3}, {"report.stale", 2},
-		{"auth.new", 8}, {"auth.dup", 3}, {"auth.conflict.debt", 5}, {"auth.conflict.key", 3}, {"auth.badsig", 2}, {"clock", 6}, {"rotate", 7}, {"restart", 6}}
+		{"auth.new", 8}, {"auth.dup", 3}, {"auth.conflict.debt", 5}, {"auth.conflict.key", 3}, {"auth.badsig", 2}, {"clock", 6}, {"rotate", 7}, {"restart", 6}, {"register.same", 4}, {"register.other", 2}}
 	total := 0
 	for _, c := range choices {
 		total += c.w
@@ -478,6 +482,10 @@ func genSeq(h int, seed int64) *Script {
 			g.seqRotate()
 		case "restart":
 			g.seq("restart", name, nil, 0)
+		case "register.same": // the lockbook repeats its registration (lost response)
+			g.seq("register", name, regBytes(sc.GCA.Pub, sc.Temp.Priv), 0)
+		case "register.other":
+			g.seq("register", name, regBytes(sc.Alt.Pub, sc.Temp.Priv), 0)
 		default:
 			g.seqReport(strings.TrimPrefix(name, "report."))
 		}
@@ -488,6 +496,9 @@ func genSeq(h int, seed int64) *Script {
 	if !did["rotate"] {
 		g.seqRotate()
 		g.seqReport("fresh")
+	}
+	if !did["register.same"] {
+		g.seq("register", "register.same", regBytes(sc.GCA.Pub, sc.Temp.Priv), 0)
 	}
 	if !did["restart"] {
 		g.seq("restart", "restart", nil, 0)
@@ -581,17 +592,25 @@ func genRot(seed int64) (*Script, []int) {
 	sc := g.sc
 	g.seq("start", "start.first", nil, 0)
 	g.seq("register", "register", regBytes(sc.GCA.Pub, sc.Temp.Priv), 0)
-	for i := 0; i < 16+g.rng.Intn(12); i++ {
+	for i := 0; i < 12+g.rng.Intn(8); i++ {
 		g.seq("auth", "auth.new", g.newAuth(uint64(50000+g.rng.Intn(150000)), sc.GCA).Bytes(), 0)
 	}
+	// four rotations whose records differ in size (devices join and get banned
+	// in between), so that a torn record can follow several whole ones
 	var rots []int
-	for k := 0; k < 2; k++ {
+	for k := 0; k < 4; k++ {
 		g.seq("clock", "clock", nil, g.m.Offset+100+uint32(g.rng.Intn(200)))
-		for i := 0; i < 6; i++ {
+		for i := 0; i < 5; i++ {
 			g.seqReport([]string{"fresh", "fresh", "equiv", "overcap"}[g.rng.Intn(4)])
 		}
 		g.seqRotate()
 		rots = append(rots, g.n-1)
+		for i := 0; i < 1+g.rng.Intn(3); i++ {
+			g.seq("auth", "auth.new", g.newAuth(uint64(50000+g.rng.Intn(150000)), sc.GCA).Bytes(), 0)
+		}
+		if g.rng.Intn(3) == 0 {
+			g.seqConflict(false)
+		}
 	}
 	g.seqReport("fresh")
 	return sc, rots
@@ -821,6 +840,12 @@ func (d *driver) runCase(cs caseSpec) (co caseOut) {
 		args := []string{"-f", "-qq", "-o", straceLog, "-e", "trace=" + traceSet, "-e", "signal=none"}
 		if cs.Mode == "sys" {
 			args = append(args, "-P", filepath.Join(srv, cs.File), "-e", fmt.Sprintf("inject=%s:signal=KILL:when=%d", cs.Sys, cs.N))
+			if cs.Kind == "rotate" && cs.Sys == "write" {
+				// Hold the rotating thread for 60 ms on entry of the openat that precedes
+				// the aimed write (other threads keep running): if the rotation is
+				// already visible at that point, the victim's watcher gets to record it.
+				args = append(args, "-e", "inject=openat:delay_enter=60000")
+			}
 		} else {
 			args = append(args, "-y")
 		}
@@ -1068,7 +1093,8 @@ func (d *driver) runCase(cs caseSpec) (co caseOut) {
 				if hit {
 					replay["torn"] = torn
 					replay["original_key"] = key
-					r.Violationf("torn-record-after-kill-inside-write:"+f, replay, "a SIGKILL landed inside the write(2) that appends a record to %s (%s; in flight: %s): the kernel kept the part already copied, and on the directory with that torn record: %s", f, why, writer[f], fmt.Sprintf(format, a...))
+					// the key names both the torn file and what went wrong on it (no known finding hides behind this class any more)
+					r.Violationf("torn-record-after-kill-inside-write:"+f+":"+key, replay, "a SIGKILL landed inside the write(2) that appends a record to %s (%s; in flight: %s): the kernel kept the part already copied, and on the directory with that torn record: %s", f, why, writer[f], fmt.Sprintf(format, a...))
 					return
 				}
 			}
@@ -1279,7 +1305,7 @@ func child(b run.Batch, r *ev.Result) {
 		rng := rand.New(rand.NewSource(b.Seed))
 		sc, rots := genRot(b.Seed)
 		for i := 0; i < kills; i++ {
-			op := rots[i%len(rots)]
+			op := rots[[]int{2, 3, 1, 3, 2, 0}[i%6]] // mostly rotations that follow two or more whole records
 			s := sc.clone()
 			s.KillInOp, s.PauseAfter = op, op
 			s.KillDelayUs = rng.Intn(120)
